@@ -32,7 +32,7 @@ RULE = (
 )
 BOUNDS = {
     "quick": "10 forms x 2 frames (EME2000, TOD) x 9 e x 5 i x 3 perigee radii x 12 dt x (direct + 3 splits + inverse + period); J2 on all elliptic states x 20 dt",
-    "thorough": "10 forms x 4 frames (EME2000, GCRF, G50, TOD) x 9 e x 5 i x 3 perigee radii x 20 dt x (direct + 3 splits + inverse + period); J2 likewise",
+    "thorough": "10 forms x 4 frames (EME2000, GCRF, G50, TOD) x 9 e x 5 i x 6 perigee radii (with their node/perigee/M0) x 20 dt x (direct + 3 splits + inverse + period); J2 likewise",
 }
 ASSUMPTIONS = [
     "dt is realised as a timedelta (1 microsecond resolution); the reference uses the same rounded number of seconds",
@@ -47,22 +47,24 @@ E_HYP = [1.01, 1.5, 1.7, 3.7, 10.0]
 INC = [0.01, 1.1, math.atan(2.0), math.pi / 2, 2.5]  # atan 2 = 63.4349 deg: 5 cos^2 i = 1
 # perigee radius with its node / perigee / initial mean anomaly (M0 < 0 and M0 > pi: both M2E start regions)
 PERIGEE = [(6.7e6, 1.0, 0.7, 0.8), (7.0e6, 3.5, 5.5, -2.0), (4.2e7, 6.0, 3.0, 3.5)]
+PERIGEE_MORE = [(8.0e6, 0.0, 0.0, 6.0), (2.0e7, 2.0, 4.0, -3.0), (1.0e8, 5.0, 1.5, 0.3)]  # thorough tier only
 DAY = 86400.0
 MAX_DT = 30 * DAY
 
 # tolerances: see check_kepler
 TOL_ELL = 1e-10
-TOL_HYP = 1e-8  # DESIGN.md; 1e-9 x the growth of the hyperbolic anomaly e^H-type conditioning at |M| up to 1e4
+TOL_HYP = 1e-10  # x cond; DESIGN.md says 1e-8, which is > 1e4 x the observed forward error (too loose to detect anything)
+TOL_EL = 1e-13  # re-derived elements: x cond x conditioning of the element (1/sin i, 1/e)
 TOL_TIME = 1e-6  # s, timedelta resolution
 
 _W = {}
 
 
-def base_orbits():
+def base_orbits(tier="quick"):
     out = []
     for e in E_ELL + E_HYP:
         for i in INC:
-            for rp, Om, w, M0 in PERIGEE:
+            for rp, Om, w, M0 in PERIGEE + (PERIGEE_MORE if tier == "thorough" else []):
                 out.append((e, i, rp, Om, w, M0))
     return out
 
@@ -157,10 +159,13 @@ def state_tol(R, dt):
 
     ellipse: 1e-10 x cond x (1 + n|dt|): the phase n dt inherits the relative error of n (3/2 da/a, with
     da/a ~ eps cond from the energy integral) -> grows with the number of revolutions (DESIGN.md: 1e-9 (1+n|dt|);
-    one decade tighter because cond is made explicit).  hyperbola: 1e-8 (DESIGN.md)."""
+    one decade tighter because cond is made explicit); the floor 1e-10 cond covers the eps/e error of e at the
+    quantifier's e >= 1e-4 (see C01).
+    hyperbola: 1e-10 x cond, no growth: an error dM = M dn/n of the mean anomaly moves the state by
+    dM / (e cosh H - 1) ~ dn/n relative, whatever |dt|."""
     if R["conic"] == "ell":
         return TOL_ELL * R["cond"] * (1 + R["n"] * abs(dt))
-    return TOL_HYP * (1 + R["n"] * abs(dt) / 100)
+    return TOL_HYP * R["cond"]
 
 
 def _margin(t, name, value, tol, case):
@@ -186,7 +191,24 @@ def _rel(x, y):
     return max(float(np.linalg.norm(x[:3] - y[:3]) / np.linalg.norm(y[:3])), float(np.linalg.norm(x[3:] - y[3:]) / np.linalg.norm(y[3:])))
 
 
-def _propagate(orbit, arg, t, sig, clause, case, what):
+def _m_class(R, dt):
+    """Input class of a hyperbolic propagation: size of the mean anomaly at the target date (the Newton iteration
+    of the library starts at about |M|)."""
+    if R["conic"] == "ell":
+        return ""
+    return "/large-mean-anomaly" if abs(R["M0"] + R["n"] * dt) > 500 else "/moderate-mean-anomaly"
+
+
+def _start_class(R, x):
+    """Input class of a propagation leg: hyperbolic states far from perigee (|H| > 3) are read back through
+    cartesian -> keplerian -> eccentric -> mean, whose conditioning grows like exp(2|H|)."""
+    if R["conic"] == "ell":
+        return ""
+    H = math.asinh(float(x[:3] @ x[3:]) / (R["e"] * math.sqrt(R["mu"] * abs(R["a"]))))
+    return "/start-far-from-perigee" if abs(H) > 3 else "/start-near-perigee"
+
+
+def _propagate(orbit, arg, t, sig, clause, case, what, cls=""):
     """One real propagation; returns the cartesian numbers or None (failure recorded)."""
     try:
         out = orbit.propagate(arg)
@@ -196,7 +218,7 @@ def _propagate(orbit, arg, t, sig, clause, case, what):
         t.fail(f"{sig}/raises-{type(ex).__name__}", clause, case, "a state", repr(ex), f"{what}: {ex!r}")
         return None, None
     if not np.all(np.isfinite(arr)):
-        t.fail(f"{sig}/non-finite", clause, case, "finite position and velocity", arr, f"{what}: propagate({arg}) returned {arr.tolist()}")
+        t.fail(f"{sig}/non-finite{cls}", clause, case, "finite position and velocity", arr, f"{what}: propagate({arg}) returned {arr.tolist()}")
         return None, None
     return out, arr
 
@@ -212,7 +234,7 @@ def check_kepler(orb, form, frame, dt, t, tier="quick"):
     t.states_add(1)
     o = _orbit(R, form, frame, "Kepler")
     clause0 = "agrees with an independent universal-variable solution of the two-body problem"
-    out, x = _propagate(o, _td(dt), t, sig, clause0, case, "propagate(dt)")
+    out, x = _propagate(o, _td(dt), t, sig, clause0, case, "propagate(dt)", _m_class(R, dt))
     t.ev(("K",) + tuple(orb) + (form, frame))
     t.outcome((conic, form, "dt>0" if dt > 0 else "dt<0"))
     if x is None:
@@ -221,7 +243,7 @@ def check_kepler(orb, form, frame, dt, t, tier="quick"):
     # a propagation failure and gets its own signature
     x0 = np.array(o.copy(form="cartesian"), dtype=float)
     d0 = _rel(x0, R["rv"]) if np.all(np.isfinite(x0)) else float("inf")
-    if not d0 <= (1e-10 if conic == "ell" else 1e-9) * R["cond"]:
+    if not d0 <= 1e-10 * R["cond"]:
         t.fail(f"initial-state-conversion/{form}/{conic}", "initial state given in any element form", case, R["rv"], x0,
                f"{form} -> cartesian of the initial state is off by {d0:.3e} before any propagation")
         return
@@ -241,10 +263,15 @@ def check_kepler(orb, form, frame, dt, t, tier="quick"):
     k = tb.cart_to_kep(x, R["mu"])
     cond = R["cond"]
     ce, ci = max(1.0, 1 / R["e"]), 1 / math.sin(R["i"])
-    etol = (TOL_ELL if conic == "ell" else TOL_HYP) * cond
+    etol = TOL_EL * cond * (1 if conic == "ell" else 10 * max(1.0, R["e"]))  # far states: e-vector = difference of two O(e) vectors
+    if conic == "hyp":
+        # hyperbolic anomaly from r.v = e sqrt(mu |a|) sinh H (well conditioned for large |H|, unlike the true anomaly)
+        H = math.asinh(float(x[:3] @ x[3:]) / (k["e"] * math.sqrt(R["mu"] * abs(k["a"]))))
+        k["M"] = k["e"] * math.sinh(H) - H
+        k["H"] = H
     checks = [
         ("a", abs(k["a"] / R["a"] - 1), etol),
-        ("e", abs(k["e"] - R["e"]), etol),
+        ("e", abs(k["e"] - R["e"]), etol * max(1.0, 0.1 / R["e"]) ** 2),  # library: e = sqrt(1 - h^2/(a mu)): eps/e
         ("i", abs(k["i"] - R["i"]), etol * ci),
         ("node", abs(fr.wrap(k["Om"] - R["Om"])), etol * ci),
         ("perigee", abs(fr.wrap(k["w"] - R["w"])), etol * ce * ci),
@@ -259,7 +286,7 @@ def check_kepler(orb, form, frame, dt, t, tier="quick"):
         dM = fr.wrap(dM)
         mtol = etol * ce * (1 + R["n"] * abs(dt))
     else:
-        mtol = TOL_HYP * cond * max(1.0, abs(R["M0"] + R["n"] * dt))
+        mtol = etol * max(1.0, abs(R["M0"] + R["n"] * dt))
     if not _margin(t, f"kepler {conic}: M - (M0 + n dt) [/tol]", abs(dM), mtol, case):
         t.fail(f"{sig}/mean-anomaly-rate", "advances the mean anomaly by n*dt", case, R["M0"] + R["n"] * dt, k["M"],
                f"from {form}: M off by {dM:.3e} (tol {mtol:.1e}) at dt = {dt} s")
@@ -271,27 +298,27 @@ def check_kepler(orb, form, frame, dt, t, tier="quick"):
             t.exclude("split leg outside the property's |dt| <= 30 d")
             continue
         # first leg by Date, second by timedelta
-        mid, xm = _propagate(o, _W["date"] + _td(t1), t, sig, clause, dict(case, t1=t1), f"first leg t1 = {label}")
+        mid, xm = _propagate(o, _W["date"] + _td(t1), t, sig, clause, dict(case, t1=t1), f"first leg t1 = {label}", _m_class(R, t1))
         if xm is None:
             continue
-        end, xe = _propagate(mid, _td(t2), t, sig, clause, dict(case, t1=t1), f"second leg after t1 = {label}")
+        end, xe = _propagate(mid, _td(t2), t, sig, clause, dict(case, t1=t1), f"second leg after t1 = {label}", _m_class(R, dt))
         if xe is None:
             continue
         tl = state_tol(R, t1) + state_tol(R, t2) + state_tol(R, dt)
         d = _rel(xe, x)
         t.ev()
         if not _margin(t, f"kepler {conic}: composition [rel/tol]", d, tl, case):
-            t.fail(f"{sig}/composition", clause, dict(case, t1=t1), x, xe, f"from {form}: t1 = {t1}, t2 = {t2}: differs by {d:.3e} (tol {tl:.1e})")
+            t.fail(f"{sig}/composition{_start_class(R, xm)}", clause, dict(case, t1=t1), x, xe, f"from {form}: t1 = {t1}, t2 = {t2}: differs by {d:.3e} (tol {tl:.1e})")
         if abs((end.date - want_date).total_seconds()) > TOL_TIME:
             t.fail("Kepler.propagate/result-date-or-frame", clause, dict(case, t1=t1), str(want_date), str(end.date))
     # (4) inverse
     clause = "propagate(-t) is the inverse"
-    back, xb = _propagate(out, _td(-dt), t, sig, clause, case, "way back")
+    back, xb = _propagate(out, _td(-dt), t, sig, clause, case, "way back", _m_class(R, 0.0))
     if xb is not None:
         d = _rel(xb, R["rv"])
         t.ev()
         if not _margin(t, f"kepler {conic}: inverse [rel/tol]", d, 2 * tol, case):
-            t.fail(f"{sig}/inverse", clause, case, R["rv"], xb, f"from {form}: propagate(dt) then propagate(-dt) misses the initial state by {d:.3e} (tol {2 * tol:.1e})")
+            t.fail(f"{sig}/inverse{_start_class(R, x)}", clause, case, R["rv"], xb, f"from {form}: propagate(dt) then propagate(-dt) misses the initial state by {d:.3e} (tol {2 * tol:.1e})")
     # (5) periodicity
     if conic == "ell":
         P = round(2 * math.pi / R["n"] * 1e6) / 1e6
@@ -352,9 +379,9 @@ def check_j2(orb, form, frame, dt, t):
     d = _rel(x, ref)
     okstate = _margin(t, "j2: state vs secular-rate model [rel/tol]", d, tol, case)
     k = tb.cart_to_kep(x, R["mu"])
-    etol = TOL_ELL * cond
+    etol = TOL_EL * cond
     bad = False
-    for name, val, tl in (("a", abs(k["a"] / R["a"] - 1), etol), ("e", abs(k["e"] - R["e"]), etol), ("i", abs(k["i"] - R["i"]), etol * ci)):
+    for name, val, tl in (("a", abs(k["a"] / R["a"] - 1), etol), ("e", abs(k["e"] - R["e"]), etol * max(1.0, 0.1 / R["e"]) ** 2), ("i", abs(k["i"] - R["i"]), etol * ci)):
         if not _margin(t, f"j2: {name} constant [/tol]", val, tl, case):
             bad = True
             t.fail(f"{sig}/{name}-changed", "J2 propagation keeps a, e, i constant", case, R[name], k[name], f"from {form}: {name} moved by {val:.3e} at dt = {dt}")
@@ -389,11 +416,14 @@ def check_j2(orb, form, frame, dt, t):
 
 def run_unit(p, t):
     tier = p["tier"]
-    for orb in base_orbits():
+    for orb in base_orbits(tier):
         if orb[0] != p["e"]:
             continue
         R = ref_orbit(orb)
         dts = dt_list(tier, R["n"])
+        if R["conic"] == "hyp" and p["form"] == "keplerian_mean":
+            # the hyperbolic x TLE-form states that are not generated (counted once per frame and orbit)
+            t.exclude("hyperbolic initial state in the TLE form (undefined: n = sqrt(mu/a^3), a < 0)", len(dts))
         for dt in dts:
             check_kepler(orb, p["form"], p["frame"], dt, t, tier)
         if R["conic"] == "ell":
@@ -409,11 +439,6 @@ def run_unit(p, t):
             t.exclude("J2 secular rates on a hyperbola (averaging over a revolution undefined)", len(dts))
         if len(t.samples) < 1:
             t.sample(dict(kind="kepler", orbit=list(orb), form=p["form"], frame=p["frame"], dts=dts))
-    if p["e"] > 1 and p["form"] == "tle":  # pragma: no cover (not generated)
-        pass
-    if p["e"] > 1 and p["form"] == "keplerian_mean":
-        # count the TLE-form exclusions once per frame
-        t.exclude("hyperbolic initial state in the TLE form (undefined: n = sqrt(mu/a^3), a < 0)", len(INC) * len(PERIGEE) * 12)
 
 
 def replay(case, t):
